@@ -1151,6 +1151,13 @@ def _pure_expr(e):
 
 def _is_log_call(c, loggers=()):
     f = c.func
+    try:
+        if ast.unparse(f) in ('sys.stderr.write', 'sys.stderr.flush', 'sys.stderr.writelines', 'warnings.warn'):
+            return True
+        if isinstance(f, ast.Name) and f.id == 'print' and any(k.arg == 'file' and ast.unparse(k.value) == 'sys.stderr' for k in c.keywords):
+            return True
+    except Exception:
+        pass
     if not isinstance(f, ast.Attribute) or f.attr not in LOG_METHODS:
         return False
     recv = f.value
@@ -1830,6 +1837,59 @@ def _receiver_class(modules, call):
     return None
 
 
+def _fold_none_locals(body):
+    """after a parameter was replaced by its default None: a local bound to None at the top of the function and written again only inside `if <local> is not None:` blocks is
+    None throughout; those blocks (and the tests) fold away"""
+    cands = [st.targets[0].id for st in body if isinstance(st, ast.Assign) and len(st.targets) == 1 and isinstance(st.targets[0], ast.Name)
+             and isinstance(st.value, ast.Constant) and st.value.value is None]
+    for v in cands:
+        def is_test(t, positive):
+            return isinstance(t, ast.Compare) and len(t.ops) == 1 and isinstance(t.left, ast.Name) and t.left.id == v and isinstance(t.comparators[0], ast.Constant) \
+                and t.comparators[0].value is None and isinstance(t.ops[0], ast.IsNot if positive else ast.Is)
+        ok = True
+        n_top = 0
+
+        def scan(stmts, guarded):
+            nonlocal ok, n_top
+            for st in stmts:
+                if isinstance(st, (ast.FunctionDef, ast.Lambda, ast.ClassDef)):
+                    if any(isinstance(x, ast.Name) and x.id == v for x in ast.walk(st)):
+                        ok = False
+                    continue
+                if isinstance(st, ast.If):
+                    g2 = guarded or is_test(st.test, True) or (isinstance(st.test, ast.BoolOp) and isinstance(st.test.op, ast.And) and any(is_test(x, True) for x in st.test.values))
+                    scan(st.body, g2)
+                    scan(st.orelse, guarded)
+                    continue
+                own = [x for x in ast.walk(st) if isinstance(x, ast.Name) and x.id == v and isinstance(x.ctx, (ast.Store, ast.Del))] if not isinstance(st, (ast.For, ast.While, ast.With, ast.Try)) else []
+                if own:
+                    if isinstance(st, ast.Assign) and isinstance(st.value, ast.Constant) and st.value.value is None and not guarded:
+                        n_top += 1
+                    elif not guarded:
+                        ok = False
+                for f in ('body', 'orelse', 'finalbody'):
+                    sub = getattr(st, f, None)
+                    if isinstance(sub, list) and sub and isinstance(sub[0], ast.stmt):
+                        scan(sub, guarded)
+                for hd in getattr(st, 'handlers', []) or []:
+                    scan(hd.body, guarded)
+                if isinstance(st, (ast.For, ast.With)) and any(isinstance(x, ast.Name) and x.id == v and isinstance(x.ctx, ast.Store) for x in ast.walk(st.target if isinstance(st, ast.For) else ast.Tuple(elts=[it.optional_vars for it in st.items if it.optional_vars is not None], ctx=ast.Store()))):
+                    ok = False
+        scan(body, False)
+        if not ok or n_top != 1:
+            continue
+
+        class S(ast.NodeTransformer):
+            def visit_Compare(self, c):
+                if is_test(c, True):
+                    return ast.copy_location(ast.Constant(value=False), c)
+                if is_test(c, False):
+                    return ast.copy_location(ast.Constant(value=True), c)
+                return c
+        body = _fold([S().visit(st) for st in body])
+    return body
+
+
 def specialise_fresh_optional_params(modules, bparams=None):
     """A parameter the pinned signature does not have, with a constant default, that no call in the package supplies: on every path the properties talk about
     (the pinned API and the package's own calls) it has its default.  The function is analysed with the default written in - `if p is None: p = X` style
@@ -1930,7 +1990,7 @@ def specialise_fresh_optional_params(modules, bparams=None):
                 if new is None:
                     fn.body = backup
                     continue
-                fn.body = new
+                fn.body = _fold_none_locals(new)
                 if kind == 'pos':
                     (a.args if a.args else a.posonlyargs).pop()
                     a.defaults.pop()
@@ -2130,6 +2190,83 @@ def canonical_index_loops(modules):
             fn.body = rewrite(fn.body)
         ast.fix_missing_locations(m.tree)
     return [('<package>', [], '%d counting loops over a local list written as for loops' % n)] if n else []
+
+
+# ----------------------------------------------------------------------------------------------- threading of boolean result locals
+
+def thread_boolean_results(modules):
+    """    if C: r = False            if C: X
+           else: S; r = True    =>    else: S; Y
+           if r: Y else: X
+       A local that every leaf of an if/elif/else assigns a boolean literal as its last statement, tested by the very next statement and used nowhere else, only
+       carries "which leaf was taken" to that test: the test's branches are moved into the leaves.  (The shape inlined boolean helpers leave behind.)"""
+    n = 0
+
+    def leaves_assign(stmts, r):
+        """list of (statement list, bool) for every leaf, or None"""
+        if not stmts:
+            return None
+        last = stmts[-1]
+        if isinstance(last, ast.Assign) and len(last.targets) == 1 and isinstance(last.targets[0], ast.Name) and last.targets[0].id == r \
+                and isinstance(last.value, ast.Constant) and isinstance(last.value.value, bool):
+            if any(isinstance(x, ast.Name) and x.id == r for b in stmts[:-1] for x in ast.walk(b)):
+                return None
+            return [(stmts, last.value.value)]
+        if isinstance(last, ast.If) and last.orelse:
+            if any(isinstance(x, ast.Name) and x.id == r for b in stmts[:-1] for x in ast.walk(b)) or any(isinstance(x, ast.Name) and x.id == r for x in ast.walk(last.test)):
+                return None
+            a, b = leaves_assign(last.body, r), leaves_assign(last.orelse, r)
+            if a is None or b is None:
+                return None
+            return a + b
+        return None
+
+    def rewrite(stmts, fn):
+        nonlocal n
+        for st in stmts:
+            for fld in ('body', 'orelse', 'finalbody'):
+                sub = getattr(st, fld, None)
+                if isinstance(sub, list) and sub and isinstance(sub[0], ast.stmt) and not isinstance(st, (ast.FunctionDef, ast.ClassDef)):
+                    setattr(st, fld, rewrite(sub, fn))
+            if isinstance(st, ast.Try):
+                for hd in st.handlers:
+                    hd.body = rewrite(hd.body, fn)
+        out = []
+        k = 0
+        while k < len(stmts):
+            st = stmts[k]
+            nxt = stmts[k + 1] if k + 1 < len(stmts) else None
+            done = False
+            if isinstance(st, ast.If) and st.orelse and isinstance(nxt, ast.If):
+                t = nxt.test
+                neg = False
+                while isinstance(t, ast.UnaryOp) and isinstance(t.op, ast.Not):
+                    t = t.operand
+                    neg = not neg
+                if isinstance(t, ast.Name):
+                    r = t.id
+                    uses = sum(1 for x in ast.walk(fn) if isinstance(x, ast.Name) and x.id == r)
+                    lv = leaves_assign([st], r)
+                    if lv is not None and uses == len(lv) + 1:
+                        for leaf, val in lv:
+                            branch = nxt.body if (val != neg) else nxt.orelse
+                            leaf.pop()
+                            leaf.extend(copy.deepcopy(b) for b in branch)
+                            if not leaf:
+                                leaf.append(ast.copy_location(ast.Pass(), nxt))
+                        out.append(st)
+                        n += 1
+                        k += 2
+                        done = True
+            if not done:
+                out.append(st)
+                k += 1
+        return out
+    for m in modules.values():
+        for fn in [x for x in ast.walk(m.tree) if isinstance(x, ast.FunctionDef)]:
+            fn.body = rewrite(fn.body, fn)
+        ast.fix_missing_locations(m.tree)
+    return [('<package>', [], '%d boolean result locals threaded into the branches that set them' % n)] if n else []
 
 
 # ----------------------------------------------------------------------------------------------- local aliases of attribute chains
